@@ -94,11 +94,68 @@ var errOpaque error
 // error constructors: the value is an error that is not an alert (the text is not modelled)
 var fmt = struct{ Errorf func(format string, a ...any) error }{}
 var errors = struct{ New func(text string) error }{}
+var io = struct{ EOF, ErrUnexpectedEOF error }{}
 
 `
 
 // curStubs: the view stubs of the group being translated
 var curStubs string
+var curNilIsEmpty bool
+
+// paStubs / paWanted: the protocol adapter's detecting connection (C20) over a SCRIPTED transport.
+// goTransport stands for the embedded net.Conn: the peer is a list of steps, each the most one Read can
+// return (a smaller buffer takes a prefix and leaves the rest readable) together with the error that Read
+// reports once the step is used up (nil, a timeout, …); the end of the script is end of stream (io.EOF).
+// Every segmentation of a byte stream, with errors anywhere, is some script.  readFull is io.ReadFull
+// (= io.ReadAtLeast(r, buf, len(buf))), statement by statement from the library.
+// nil-is-empty: recordHeader is nil, make([]byte, 5) or a non-empty suffix of it (Read sets it to nil when
+// the suffix becomes empty), so "== nil" and "is empty" coincide on it.
+var paWanted = []string{"ProtocolDetectConn.protocolVersion", "ProtocolDetectConn.ReadFirstHeader", "ProtocolDetectConn.Read"}
+
+const paStubs = `
+type ProtocolDetectConn struct {
+	Conn         *goTransport
+	major, minor uint8
+	recordHeader []byte
+	headerRead   int
+}
+type readStep struct {
+	data []byte
+	err  error
+}
+type goTransport struct{ script []readStep }
+
+func (t *goTransport) Read(b []byte) (int, error) {
+	if len(b) == 0 {
+		return 0, nil
+	}
+	if len(t.script) == 0 {
+		return 0, io.EOF
+	}
+	st := t.script[0]
+	n := copy(b, st.data)
+	if n < len(st.data) {
+		t.script[0].data = st.data[n:]
+		return n, nil
+	}
+	t.script = t.script[1:]
+	return n, st.err
+}
+
+func (r *goTransport) readFull(buf []byte) (n int, err error) {
+	for n < len(buf) && err == nil {
+		var nn int
+		nn, err = r.Read(buf[n:])
+		n += nn
+	}
+	if n >= len(buf) {
+		err = nil
+	} else if n > 0 && err == io.EOF {
+		err = io.ErrUnexpectedEOF
+	}
+	return
+}
+`
 
 // rxStubs / rxWanted: the receive side of the record layer (halfConn.decrypt and what it calls) is translated
 // over its own views: here halfConn.mac keeps its real type hash.Hash (the keyed-hash model), the ciphers
@@ -223,11 +280,12 @@ func (b goCBC) BlockSize() int { return b.blockSize }
 
 // viewStructs: stub structs standing for real ones, with the fields whose type is abstracted
 var viewStructs = map[string]map[string]bool{
-	"Conn":            {},
-	"Config":          {},
-	"halfConn":        {"mac": true},
-	"RetransmitTimer": {"starts": true},
-	"cipherSuite":     {},
+	"ProtocolDetectConn": {"Conn": true},
+	"Conn":               {},
+	"Config":             {},
+	"halfConn":           {"mac": true},
+	"RetransmitTimer":    {"starts": true},
+	"cipherSuite":        {},
 }
 
 // viewOptional: stub fields that exist in only one of the packages
@@ -243,7 +301,10 @@ var dynTypes = []string{"goStream", "goAEAD", "goCBC"}
 // loopFuel: bounds (Go expressions over the function's parameters) for loops that are not
 // counting loops, in source order, keyed by "pkg.func".  A bound that is too small makes the
 // translated function fail with "loop fuel exhausted"; the tie theorems show it never does.
-var loopFuel = map[string][]string{}
+var loopFuel = map[string][]string{
+	// every iteration uses up a step of the script or fills the buffer
+	"pa.goTransport.readFull": {"len(r.script) + 2"},
+}
 
 type decls struct {
 	fset  *token.FileSet
@@ -409,7 +470,7 @@ func synth(d *decls, pkgName string, fns []string) (*token.FileSet, *ast.File, *
 // rewriteDynCases re-parses one function and replaces the case types of its type switches by
 // the stub types that stand for them (dynCases)
 func rewriteDynCases(src string) string {
-	if !strings.Contains(src, ".(type)") {
+	if !strings.Contains(src, ".(type)") && !strings.Contains(src, "io.ReadFull(") {
 		return src
 	}
 	fset := token.NewFileSet()
@@ -418,6 +479,16 @@ func rewriteDynCases(src string) string {
 		return src
 	}
 	ast.Inspect(f, func(n ast.Node) bool {
+		// io.ReadFull(r, buf)  ==>  r.readFull(buf)   (the stub method that spells the library loop out)
+		if c, ok := n.(*ast.CallExpr); ok && len(c.Args) == 2 {
+			if se, ok := c.Fun.(*ast.SelectorExpr); ok && se.Sel.Name == "ReadFull" {
+				if id, ok := se.X.(*ast.Ident); ok && id.Name == "io" {
+					c.Fun = &ast.SelectorExpr{X: c.Args[0], Sel: &ast.Ident{Name: "readFull"}}
+					c.Args = c.Args[1:]
+				}
+			}
+			return true
+		}
 		ts, ok := n.(*ast.TypeSwitchStmt)
 		if !ok {
 			return true
@@ -502,6 +573,13 @@ func checkViews(d *decls, pkgName string) error {
 				for _, nm := range f.Names {
 					realFields[nm.Name] = b.String()
 				}
+				if len(f.Names) == 0 { // embedded: named after its type
+					nm := b.String()
+					if i := strings.LastIndex(nm, "."); i >= 0 {
+						nm = nm[i+1:]
+					}
+					realFields[strings.TrimPrefix(nm, "*")] = b.String()
+				}
 			}
 			for _, f := range ts.Type.(*ast.StructType).Fields.List {
 				var b bytes.Buffer
@@ -559,19 +637,20 @@ type field struct {
 }
 
 type fnMeta struct {
-	goName    string
-	leanName  string
-	decl      *ast.FuncDecl
-	obj       types.Object
-	panics    bool // uses a checked helper (directly or through a callee)
-	mutRecv   bool // assigns through its pointer receiver
-	hasRecv   bool
-	ptrRecv   bool
-	mutParam  []string     // names of slice parameters written through (returned after the receiver)
-	usesExt   bool         // calls a modelled library function: takes `(ext : Go.Extern)` first
-	usesRx    bool         // calls a modelled record cipher: takes `(rx : Go.RxExtern)` (after ext)
-	nonNilPtr bool         // compares a struct pointer with nil (translated as "not nil")
-	inner     *ast.FuncLit // body is `return func(params) {…}`: translated uncurried (outer ++ inner parameters)
+	goName     string
+	leanName   string
+	decl       *ast.FuncDecl
+	obj        types.Object
+	panics     bool // uses a checked helper (directly or through a callee)
+	mutRecv    bool // assigns through its pointer receiver
+	hasRecv    bool
+	ptrRecv    bool
+	mutParam   []string     // names of slice parameters written through (returned after the receiver)
+	usesExt    bool         // calls a modelled library function: takes `(ext : Go.Extern)` first
+	usesRx     bool         // calls a modelled record cipher: takes `(rx : Go.RxExtern)` (after ext)
+	nonNilPtr  bool         // compares a struct pointer with nil (translated as "not nil")
+	nilIsEmpty bool         // compares a slice with nil (translated as "is empty": see the group)
+	inner      *ast.FuncLit // body is `return func(params) {…}`: translated uncurried (outer ++ inner parameters)
 }
 
 // body / params of the function as translated (the closure's, for closure-returning functions)
@@ -983,6 +1062,16 @@ func (t *tr) expr(e ast.Expr) string {
 				}
 			}
 		}
+		if src := t.src(x); src == "io.EOF" || src == "io.ErrUnexpectedEOF" {
+			if id, ok := x.X.(*ast.Ident); ok {
+				if v, isVar := t.info.Uses[id].(*types.Var); isVar && v.Parent() == t.pkg.Scope() {
+					if src == "io.EOF" {
+						return "(some Go.Error.eof)"
+					}
+					return "(some Go.Error.unexpectedEOF)"
+				}
+			}
+		}
 		sel := t.info.Selections[x]
 		if sel == nil || sel.Kind() != types.FieldVal {
 			bad("selector %s", t.src(x))
@@ -1146,6 +1235,13 @@ func (t *tr) binary(op token.Token, X, Y ast.Expr, resTy types.Type) string {
 					if isErrorType(ot) {
 						return "(" + neg + "(" + t.expr(other) + ").isSome)"
 					}
+					if _, ok := ot.Underlying().(*types.Slice); ok && curNilIsEmpty {
+						t.meta.nilIsEmpty = true
+						if op == token.EQL {
+							return "(" + t.atom(other) + ").isEmpty"
+						}
+						return "(!(" + t.atom(other) + ").isEmpty)"
+					}
 					if sl, ok := ot.Underlying().(*types.Slice); ok {
 						if w, _, _ := intKind(sl.Elem()); w == 8 {
 							// nil and empty slices are the same List: the outcome is a parameter
@@ -1175,6 +1271,12 @@ func (t *tr) binary(op token.Token, X, Y ast.Expr, resTy types.Type) string {
 			isStr := func(ty types.Type) bool {
 				b, ok := ty.Underlying().(*types.Basic)
 				return ok && b.Info()&types.IsString != 0
+			}
+			if isErrorType(xt) && isErrorType(yt) && (op == token.EQL || op == token.NEQ) {
+				if op == token.EQL {
+					return "(" + x + " == " + y + ")"
+				}
+				return "(" + x + " != " + y + ")"
 			}
 			if isStr(xt) && isStr(yt) && (op == token.EQL || op == token.NEQ) {
 				if op == token.EQL {
@@ -1651,6 +1753,17 @@ func (t *tr) stmt(o *out, s ast.Stmt) {
 		}
 	case *ast.AssignStmt:
 		if x.Tok == token.DEFINE || x.Tok == token.ASSIGN {
+			if call, isCall := x.Rhs[0].(*ast.CallExpr); isCall && len(x.Rhs) == 1 {
+				if callee, _ := t.mutCallee(call); callee != nil {
+					if r := callee.resultsOf(); r != nil && r.NumFields() == len(x.Lhs) {
+						res, _ := t.effCall(o, call)
+						for i, l := range x.Lhs {
+							t.assignOrDefine(o, x.Tok, l, res[i])
+						}
+						return
+					}
+				}
+			}
 			if call, isCall := x.Rhs[0].(*ast.CallExpr); isCall && len(x.Rhs) == 1 && len(x.Lhs) > 1 {
 				// a, b = f(...): bind the tuple, then assign its components
 				tmp := fmt.Sprintf("tup%d'", t.tmpN)
@@ -1700,6 +1813,15 @@ func (t *tr) stmt(o *out, s ast.Stmt) {
 		t.assign(o, x.Lhs[0], t.binary(bop, x.Lhs[0], x.Rhs[0], t.typeOf(x.Lhs[0])))
 	case *ast.ReturnStmt:
 		var vals []string
+		if len(x.Results) == 1 {
+			if call, ok := x.Results[0].(*ast.CallExpr); ok {
+				if callee, _ := t.mutCallee(call); callee != nil {
+					res, _ := t.effCall(o, call)
+					t.emit(o, "return %s", t.retExpr(res))
+					return
+				}
+			}
+		}
 		if len(x.Results) == 0 {
 			for _, r := range t.results {
 				vals = append(vals, t.name(r))
@@ -1855,6 +1977,127 @@ func (t *tr) procCallR(o *out, callee *fnMeta, recvArg string, args []ast.Expr, 
 	return true
 }
 
+// mutCallee: the translated function or method c invokes when it writes through its receiver or a
+// slice argument (such a call is a statement of its own: see effCall)
+func (t *tr) mutCallee(c *ast.CallExpr) (*fnMeta, ast.Expr) {
+	var callee *fnMeta
+	var recv ast.Expr
+	switch f := c.Fun.(type) {
+	case *ast.Ident:
+		callee = t.byObj[t.info.Uses[f]]
+	case *ast.SelectorExpr:
+		if sel := t.info.Selections[f]; sel != nil && sel.Kind() == types.MethodVal {
+			callee = t.byObj[sel.Obj()]
+			recv = f.X
+		}
+	}
+	if callee == nil || callee.inner != nil || (!callee.mutRecv && len(callee.mutParam) == 0) {
+		return nil, nil
+	}
+	return callee, recv
+}
+
+// effCall: a call of a procedure-like callee WITH results: binds the tuple the translated callee returns,
+// writes the receiver and the written slice arguments back (a window `x[lo:hi]` is copied back into x)
+// and returns the Lean expressions of the Go results
+func (t *tr) effCall(o *out, c *ast.CallExpr) ([]string, bool) {
+	callee, recv := t.mutCallee(c)
+	if callee == nil {
+		return nil, false
+	}
+	nres := 0
+	if r := callee.resultsOf(); r != nil {
+		nres = r.NumFields()
+	}
+	sx := callee.leanName
+	if callee.usesExt {
+		sx += " ext"
+		t.meta.usesExt = true
+	}
+	if callee.usesRx {
+		sx += " rx"
+		t.meta.usesRx = true
+	}
+	if recv != nil {
+		sx += " " + t.atom(recv)
+	}
+	for _, a := range c.Args {
+		sx += " " + t.atom(a)
+	}
+	if callee.panics {
+		sx = t.act(sx)
+	} else {
+		sx = "(" + sx + ")"
+	}
+	total := nres + len(callee.mutParam)
+	if callee.mutRecv {
+		total++
+	}
+	tup := fmt.Sprintf("eff%d'", t.tmpN)
+	t.tmpN++
+	t.emit(o, "let %s := %s", tup, sx)
+	proj := func(i int) string {
+		if total == 1 {
+			return tup
+		}
+		p := tup + strings.Repeat(".2", i)
+		if i < total-1 {
+			p += ".1"
+		}
+		return p
+	}
+	k := 0
+	if callee.mutRecv {
+		if recv == nil {
+			bad("call %s of a receiver-assigning function without a receiver", t.src(c))
+		}
+		t.assign(o, recv, proj(k))
+		k++
+	}
+	names := callee.paramNames()
+	for _, mp := range callee.mutParam {
+		idx := -1
+		for i, nm := range names {
+			if mangle(nm) == mp {
+				idx = i
+			}
+		}
+		if idx < 0 || idx >= len(c.Args) {
+			bad("call %s: written parameter %s not found", t.src(c), mp)
+		}
+		arg := c.Args[idx]
+		for {
+			if pe, ok := arg.(*ast.ParenExpr); ok {
+				arg = pe.X
+				continue
+			}
+			break
+		}
+		switch a := arg.(type) {
+		case *ast.SliceExpr:
+			lo, hi := "(0 : Int)", "(("+t.expr(a.X)+").length : Int)"
+			if a.Low != nil {
+				lo = t.intOf(a.Low)
+			}
+			if a.High != nil {
+				hi = t.intOf(a.High)
+			}
+			t.assign(o, a.X, t.act("Go.copyInto "+t.atom(a.X)+" "+t.atomS(lo)+" "+t.atomS(hi)+" "+t.atomS(proj(k))))
+		case *ast.Ident, *ast.SelectorExpr:
+			t.assign(o, a, proj(k))
+		default:
+			// a temporary: nothing to write back
+		}
+		k++
+	}
+	var res []string
+	for i := 0; i < nres; i++ {
+		res = append(res, proj(k))
+		k++
+	}
+	return res, true
+}
+
 func (t *tr) callStmt(o *out, c *ast.CallExpr) {
 	if id, ok := c.Fun.(*ast.Ident); ok && id.Name == "panic" {
 		if _, isB := t.info.Uses[id].(*types.Builtin); isB {
@@ -1928,6 +2171,9 @@ func (t *tr) callStmt(o *out, c *ast.CallExpr) {
 				return
 			}
 		}
+	}
+	if _, ok := t.effCall(o, c); ok {
+		return
 	}
 	bad("call statement %s", t.src(c))
 }
@@ -2390,7 +2636,7 @@ func assignsThroughRecv(fd *ast.FuncDecl) bool {
 
 // writtenSliceParams: parameters `p []T` with `p[i] = v`, `p[i] op= v`, `copy(p.., ..)` in the body, or
 // handed to a translated callee at a position the callee writes through (byName: metas so far)
-func writtenSliceParams(m *fnMeta, byName map[string]*fnMeta) []string {
+func writtenSliceParams(t *tr, m *fnMeta, byName map[string]*fnMeta) []string {
 	var outp []string
 	body := m.bodyOf()
 	for _, fl := range m.paramLists() {
@@ -2431,6 +2677,10 @@ func writtenSliceParams(m *fnMeta, byName map[string]*fnMeta) []string {
 						var args []ast.Expr
 						if id, ok := s.Fun.(*ast.Ident); ok {
 							callee, args = byName[id.Name], s.Args
+						} else if f, ok := s.Fun.(*ast.SelectorExpr); ok {
+							if sel := t.info.Selections[f]; sel != nil && sel.Kind() == types.MethodVal {
+								callee, args = t.byObj[sel.Obj()], s.Args
+							}
 						} else if inner, ok := s.Fun.(*ast.CallExpr); ok {
 							if id, ok := inner.Fun.(*ast.Ident); ok {
 								callee = byName[id.Name]
@@ -2583,7 +2833,9 @@ func (t *tr) function(m *fnMeta) (text string, err error) {
 		params = append([]string{"(ext : Go.Extern)"}, params...)
 	}
 	var b strings.Builder
-	if m.nonNilPtr {
+	if m.nilIsEmpty {
+		fmt.Fprintf(&b, "/-- translated from `%s` (`s == nil` on a slice is \"s is empty\": see the stubs of this group in go2lean) -/\n", m.goName)
+	} else if m.nonNilPtr {
 		fmt.Fprintf(&b, "/-- translated from `%s` (pointer arguments are assumed non-nil: `p != nil` is `true`) -/\n", m.goName)
 	} else {
 		fmt.Fprintf(&b, "/-- translated from `%s` -/\n", m.goName)
@@ -2677,10 +2929,13 @@ type group struct {
 	sub   string // Lean sub-namespace ("" = the package namespace itself)
 	stubs string
 	funcs []string
+	// `s == nil` on a slice is translated as "s is empty" (sound where no empty non-nil slice is ever stored
+	// in the compared variable: stated per group, see paStubs)
+	nilIsEmpty bool
 }
 
 func allGroups() []group {
-	var gs []group
+	gs := []group{{pkg: "pa", stubs: paStubs, funcs: paWanted, nilIsEmpty: true}}
 	for _, name := range pkgOrder {
 		gs = append(gs, group{pkg: name, stubs: viewStubs[name], funcs: wanted[name]})
 		gs = append(gs, group{pkg: name, sub: "rx", stubs: rxStubs, funcs: rxWanted[name]})
@@ -2699,6 +2954,7 @@ func translatePackage(repo string, g group, w *strings.Builder, untranslated *[]
 	defer fmt.Fprintf(w, "end %s\n\n", ns)
 	wanted := map[string][]string{name: g.funcs}
 	curStubs = g.stubs
+	curNilIsEmpty = g.nilIsEmpty
 	fail := func(reason string) {
 		for _, fn := range wanted[name] {
 			*untranslated = append(*untranslated, ns+"."+fn)
@@ -2820,7 +3076,7 @@ func translatePackage(repo string, g group, w *strings.Builder, untranslated *[]
 	}
 	for round := 0; round < 6; round++ {
 		for _, m := range metas {
-			m.mutParam = writtenSliceParams(m, byName)
+			m.mutParam = writtenSliceParams(t, m, byName)
 		}
 	}
 	// emit callees before callers
@@ -2936,7 +3192,7 @@ func translatePackage(repo string, g group, w *strings.Builder, untranslated *[]
 		for _, sp := range gd.Specs {
 			vs := sp.(*ast.ValueSpec)
 			for i, nm := range vs.Names {
-				if nm.Name == "_" || i >= len(vs.Values) || nm.Name == "hmac" || nm.Name == "sm3" || nm.Name == "sha256" || nm.Name == "subtle" || nm.Name == "rxExtern" || nm.Name == "errOpaque" || nm.Name == "fmt" || nm.Name == "errors" {
+				if nm.Name == "_" || i >= len(vs.Values) || nm.Name == "hmac" || nm.Name == "sm3" || nm.Name == "sha256" || nm.Name == "subtle" || nm.Name == "rxExtern" || nm.Name == "errOpaque" || nm.Name == "fmt" || nm.Name == "errors" || nm.Name == "io" {
 					continue
 				}
 				obj := info.Defs[nm]
